@@ -27,16 +27,16 @@ var killOwners = map[string]string{
 }
 
 func ruleKill(c *Ctx) *RuleResult {
-	r := newResult("R-KILL", "termination cannot be intercepted: (a) every frame whose deferred recover() would keep a runtime.ContextTerminationError (it swallows/converts everything, or type-asserts a type the error satisfies, e.g. `error`) is either one of the designated owners (CallContext, the coroutine goroutine, Runtime.Close) or has a protected region (the frame and everything it calls, through Lua dispatch too) that cannot reach (*runtimeContextManager).TerminateContext; (b) ContextTerminationError values are built only in TerminateContext, which stores status=Killed before panicking; (c) the coroutine forwarding chain Start.defer -> t.end(.., r) -> caller.sendResumeValues(.., exception) -> getResumeValues -> panic(exception) is intact (def-use of the recovered value at each hop); (d) CallContext's handler only truncates the close stack on the kill path (no Lua code runs there)")
+	r := newResult("R-KILL", "termination cannot be intercepted: (a) every frame whose deferred recover() would keep a runtime.ContextTerminationError (it swallows/converts everything, or type-asserts a type the error satisfies, e.g. `error`) is either one of the designated owners (CallContext, the coroutine goroutine, Runtime.Close) or has a protected region (the frame and everything it calls, through Lua dispatch too) that cannot reach (*runtimeContextManager).TerminateContext; (b) ContextTerminationError values are built only in methods of the context manager, and every function that panics with one stores status=Killed before panicking; (c) the coroutine forwarding chain Start.defer -> t.end(.., r) -> caller.sendResumeValues(.., exception) -> getResumeValues -> panic(exception) is intact (def-use of the recovered value at each hop); (d) CallContext's handler only truncates the close stack on the kill path (no Lua code runs there)")
 	p := c.P
-	term := p.Func("runtime", "(*runtimeContextManager).TerminateContext")
-	if term == nil {
-		r.broken("anchor unresolved: runtime.(*runtimeContextManager).TerminateContext")
-		return r
-	}
 	cte := p.TypeNamed("runtime", "ContextTerminationError")
 	if cte == nil {
 		r.broken("anchor unresolved: runtime.ContextTerminationError")
+		return r
+	}
+	terms := p.terminators()
+	if len(terms) == 0 {
+		r.broken("anchor unresolved: no function panics with a runtime.ContextTerminationError")
 		return r
 	}
 	recs := collectRecovers(p)
@@ -62,7 +62,7 @@ func ruleKill(c *Ctx) *RuleResult {
 		var foundEdge *callgraph.Edge
 		// do not cut the gated dispatch here: Lua code run under the frame counts
 		visit := func(e *callgraph.Edge, cur searchState) {
-			if e.Callee.Func == term && !found {
+			if terms[e.Callee.Func] && !found {
 				found = true
 				foundSt = cur
 				foundEdge = e
@@ -86,51 +86,65 @@ func ruleKill(c *Ctx) *RuleResult {
 	r.count("designated_owner_frames", ownersSeen)
 	r.floor("designated_owner_frames", 3)
 
-	// (b) construction sites of ContextTerminationError
+	// (b) construction sites of ContextTerminationError: a local of that type
+	// that is filled field by field (or left zero), not a copy of an existing value
+	nctor := 0
 	for _, f := range p.ModFuncs() {
+		if f.Blocks == nil {
+			continue
+		}
 		forEachInstr(f, func(ins ssa.Instruction) {
-			mi, ok := ins.(*ssa.MakeInterface)
-			if !ok || !types.Identical(mi.X.Type(), cte) {
+			al, ok := ins.(*ssa.Alloc)
+			if !ok {
 				return
 			}
-			// only conversions of a freshly built struct count as construction
-			if _, isLit := mi.X.(*ssa.UnOp); !isLit {
-				if _, isCall := mi.X.(*ssa.Call); !isCall {
-					return
+			pt, ok := al.Type().Underlying().(*types.Pointer)
+			if !ok || !types.Identical(pt.Elem(), cte) {
+				return
+			}
+			copyOf := false
+			if al.Referrers() != nil {
+				for _, ref := range *al.Referrers() {
+					if st, ok := ref.(*ssa.Store); ok && st.Addr == al {
+						copyOf = true
+					}
 				}
 			}
-			if u, ok := mi.X.(*ssa.UnOp); ok {
-				if _, isAlloc := u.X.(*ssa.Alloc); !isAlloc {
-					return
-				}
+			if copyOf {
+				return
 			}
-			if f == term {
-				r.ok("ContextTerminationError built in TerminateContext")
+			nctor++
+			if f.Signature.Recv() != nil && strings.HasSuffix(f.Signature.Recv().Type().String(), "runtime.runtimeContextManager") {
+				r.ok("ContextTerminationError built in " + fnKey(f) + ", a method of the context manager")
 			} else {
-				r.fail("cte-built-elsewhere:"+fnKey(f), p.InstrPos(ins), "a ContextTerminationError value is constructed outside TerminateContext: a termination can be faked without the context being marked killed")
+				r.fail("cte-built-elsewhere:"+fnKey(f), p.InstrPos(ins), "a ContextTerminationError value is constructed outside the context manager's methods: a termination can be faked without the context being marked killed")
 			}
 		})
 	}
-	// status = Killed stored before the panic in TerminateContext (quota build)
+	r.count("termination_error_constructions", nctor)
+	r.floor("termination_error_constructions", 1)
+	// status = Killed stored before the panic in every function that raises a termination (quota build)
 	if p.Config.Tags != "noquotas" {
-		var store *ssa.Store
-		var pan *ssa.Panic
-		forEachInstr(term, func(ins ssa.Instruction) {
-			switch x := ins.(type) {
-			case *ssa.Store:
-				if fa, ok := x.Addr.(*ssa.FieldAddr); ok {
-					if _, tn, fn := fieldOfAddr(fa); tn == "runtimeContextManager" && fn == "status" {
-						store = x
+		for term := range terms {
+			var store *ssa.Store
+			var pan *ssa.Panic
+			forEachInstr(term, func(ins ssa.Instruction) {
+				switch x := ins.(type) {
+				case *ssa.Store:
+					if fa, ok := x.Addr.(*ssa.FieldAddr); ok {
+						if _, tn, fn := fieldOfAddr(fa); tn == "runtimeContextManager" && fn == "status" {
+							store = x
+						}
 					}
+				case *ssa.Panic:
+					pan = x
 				}
-			case *ssa.Panic:
-				pan = x
+			})
+			if store != nil && pan != nil && instrDominates(store, pan) {
+				r.ok(fnKey(term) + " stores status before panicking")
+			} else {
+				r.fail("terminate-status-order", p.Pos(term.Pos()), fnKey(term)+" does not store the context status before the panic on every path: a killed context could report another status")
 			}
-		})
-		if store != nil && pan != nil && instrDominates(store, pan) {
-			r.ok("TerminateContext stores status before panicking")
-		} else {
-			r.fail("terminate-status-order", p.Pos(term.Pos()), "TerminateContext does not store the context status before the panic on every path: a killed context could report another status")
 		}
 	}
 
